@@ -328,7 +328,14 @@ def _real(case, obs):
     cls = ["slsqp", "cobyla", "l-bfgs-b", "nelder-mead", "de", "de_vec"][int(rng.integers(6))]
     cons = CLASSES[cls]["cons"][int(rng.integers(len(CLASSES[cls]["cons"])))]
     spec = _spec(cls, cons, bool(rng.random() < 0.5), bool(rng.random() < 0.5))
+    # the other supported methods of the same class produce other schedules
+    if cls == "l-bfgs-b":
+        spec["optimizer"]["method"] = str(rng.choice(["l-bfgs-b", "tnc", "cg", "bfgs", "newton-cg"]))
+    elif cls == "nelder-mead":
+        spec["optimizer"]["method"] = str(rng.choice(["nelder-mead", "powell"]))
+    obs.feature("real.method." + spec["optimizer"]["method"])
     spec["optimizer"]["max_iterations"] = 4
+    spec["optimizer"]["options"] = {"maxfun": 12} if spec["optimizer"]["method"] == "tnc" else {"maxiter": 4}
     if CLASSES[cls]["method"] == "differential_evolution":
         spec["optimizer"]["options"] = {"seed": int(rng.integers(1000)), "popsize": 3, "tol": 0.5}
         spec["optimizer"]["max_iterations"] = 2
@@ -343,10 +350,23 @@ def _real(case, obs):
     bad = []
     counts = {"f": 0, "g": 0, "c": 0, "j": 0}
 
-    def chk(kind, x, got, want):
+    recent = []      # recently requested 1-D points with the reference evaluated there, per kind
+
+    def chk(kind, x, got, want, ref_at=None):
         counts[kind[0]] += 1
         obs.count("values_compared")
-        if not np.allclose(np.ravel(got), np.ravel(want), rtol=1e-8, atol=1e-8) and not bad:
+        ok = np.allclose(np.ravel(got), np.ravel(want), rtol=1e-8, atol=1e-8)
+        if not ok and np.ndim(x) == 1 and ref_at is not None:
+            # line searches produce points closer than the plug-in's own allclose tolerance (rtol 1e-5, atol 1e-8): such a point
+            # IS the cached point for the plug-in (the quantifier only speaks about identical or well separated points)
+            for p in recent[-6:]:
+                if p.shape == np.shape(x) and np.allclose(x, p, rtol=1e-5, atol=1e-8) and np.allclose(np.ravel(got), np.ravel(ref_at(p)), rtol=1e-8, atol=1e-8):
+                    ok = True
+                    obs.count("real_method_point_within_cache_tolerance")
+                    break
+        if np.ndim(x) == 1:
+            recent.append(np.array(x, copy=True))
+        if not ok and not bad:
             bad.append({"kind": kind, "x": np.array(x), "got": np.array(got), "want": np.array(want)})
 
     def handler(name, orig, args, kw):
@@ -360,7 +380,7 @@ def _real(case, obs):
                 want = np.array([ref.functions(x[:, s])[0] for s in range(x.shape[1])])
             else:
                 want = ref.functions(x)[0]
-            chk("f", x, got, want)
+            chk("f", x, got, want, ref_at=lambda p: ref.functions(p)[0])
             return got
 
         kw[fkey] = fun
@@ -369,7 +389,7 @@ def _real(case, obs):
 
             def jac(x, *a):
                 got = j0(x, *a)
-                chk("g", x, got, ref.gradients(x)[0])
+                chk("g", x, got, ref.gradients(x)[0], ref_at=lambda p: ref.gradients(p)[0])
                 return got
 
             kw["jac"] = jac
@@ -378,10 +398,10 @@ def _real(case, obs):
             if isinstance(con, dict):
                 d = dict(con)
                 cf = con["fun"]
-                d["fun"] = (lambda x, cf=cf, k=k: (lambda got: (chk(("c", k), x, got, ref.normalized(x)[k][0]), got)[1])(cf(x)))
+                d["fun"] = (lambda x, cf=cf, k=k: (lambda got: (chk(("c", k), x, got, ref.normalized(x)[k][0], ref_at=lambda p, k=k: ref.normalized(p)[k][0]), got)[1])(cf(x)))
                 if "jac" in con:
                     cj = con["jac"]
-                    d["jac"] = (lambda x, cj=cj, k=k: (lambda got: (chk(("j", k), x, got, ref.normalized(x)[k][1]), got)[1])(cj(x)))
+                    d["jac"] = (lambda x, cj=cj, k=k: (lambda got: (chk(("j", k), x, got, ref.normalized(x)[k][1], ref_at=lambda p, k=k: ref.normalized(p)[k][1]), got)[1])(cj(x)))
                 newc.append(d)
             elif hasattr(con, "fun"):
                 from scipy.optimize import NonlinearConstraint  # noqa: PLC0415
